@@ -1125,3 +1125,96 @@ def logical_buffer_view(chk, db, rule):
                 'operator[]': 'returns data[index]'}[f['n']]
         chk.decide(ok, rule, facts.site(f), 'LogicalBuffer::%s %s%s' % (f['n'], what, '' if ok else ': NOT recognised'),
                    function=ir.fn_label(f))
+
+
+# --------------------------------------------------------------------------- composition of wrapper encoders
+WRAPPER_KINDS = ('OPTIONAL', 'RESULT', 'ENUM', 'VARIANT', 'VALUE', 'REFWRAP')
+
+
+def nested_encodings(db, fn):
+    """component types whose Encoding<X>/EncodingIO<X> members an encoder member reaches, through its own helpers,
+    lambdas and any library helper that is not itself an encoder of another type"""
+    encs, visited = set(), set()
+    own = fn['rec'].split('<', 1)[1]
+
+    def collect(f, depth):
+        if id(f) in visited or depth > 8:
+            return
+        visited.add(id(f))
+        for c in ir.calls(f['body']):
+            cc = c.get('callee') or {}
+            if cc.get('rect') in ('nop::Encoding', 'nop::EncodingIO') and cc.get('rec', '').split('<', 1)[1:] != [own] and \
+                    cc.get('rec') != fn['rec']:
+                inner = cc['rec'].split('<', 1)[1][:-1]
+                a = split_args(inner)
+                if cc['rect'] == 'nop::Encoding' and len(a) == 2 and a[1] == 'void':
+                    inner = a[0]
+                if inner != fn['recargs'][0]:
+                    encs.add(inner)
+                    continue
+            cal = db.callee(f, c)
+            if cal is not None and 'body' in cal and cal.get('nop', True):
+                collect(cal, depth + 1)
+        for y in ir.walk(f['body']):
+            if y.get('k') == 'lambda' and y.get('op') and 'fid' in y['op']:
+                g = db.fn_by_id(f, y['op']['fid'])
+                if g is not None and 'body' in g:
+                    collect(g, depth + 1)
+    collect(fn, 0)
+    return encs
+
+
+def norm_t(t):
+    return re.sub(r'\bconst\s+', '', t).strip()
+
+
+def composition(chk, db, rule, methods):
+    """wrapper encoders (optional, result, enum, variant, value wrapper, reference wrapper) consist of exactly the documented
+    component encodings: Encoding<T> for the wrapped value, Encoding<ErrorEnum> for a result's error, Encoding<underlying type>
+    for an enum, INT32 index plus Encoding<Ti> (and EmptyVariant) for a variant"""
+    seen = set()
+    value_kinds = {}
+    for fn in encoder_instances(db, set(methods) | {'Prefix'}):
+        k = classify(fn)
+        if k is None or k.kind not in WRAPPER_KINDS or (fn['n'] not in methods and k.kind != 'VALUE'):
+            continue
+        key = (fn['recargs'][0], fn['n'], len(fn['params']))
+        if key in seen:
+            continue
+        seen.add(key)
+        t = fn['recargs'][0]
+        args = split_args(t[t.index('<') + 1:-1]) if '<' in t and t.endswith('>') else []
+        got = {norm_t(x) for x in nested_encodings(db, fn)}
+        whole = fn['n'] in ('WritePayload', 'ReadPayload', 'Size')
+        want = None
+        if k.kind in ('OPTIONAL', 'REFWRAP'):
+            want = {args[0]}
+        elif k.kind == 'RESULT':
+            want = {args[0], args[1]} if whole else {args[1]}
+        elif k.kind == 'VARIANT':
+            want = ({'int', 'nop::EmptyVariant'} | set(args)) if whole else set()
+        elif k.kind == 'ENUM':
+            e = db.enums.get(t)
+            if e is None or not e.get('underlying'):
+                continue            # unnamed selector enums: not resolvable by name; covered by the named ones
+            want = {e['underlying']}
+        elif k.kind == 'VALUE':
+            # a value wrapper delegates every operation to the encoding of one and the same wrapped member
+            value_kinds.setdefault(t, {})[fn['n']] = (got, fn)
+            continue
+        # an enum is encoded as its underlying integer type, so either spelling of that component is the same encoding
+        under = lambda x: (db.enums.get(x) or {}).get('underlying') or x
+        want = {under(norm_t(x)) for x in want}
+        got = {under(x) for x in got}
+        chk.decide(got == want, rule, '%s <%s> %s' % (facts.site(fn), short_t(t), fn['n']),
+                   'Encoding<%s>::%s is composed of the encodings of %s%s' % (short_t(t), fn['n'], sorted(got),
+                                                                          '' if got == want else ', documented: %s' % sorted(want)),
+                   function=ir.fn_label(fn))
+    for t, by in sorted(value_kinds.items()):
+        ref = by.get('Prefix', (None, None))[0]
+        for n, (got, fn) in sorted(by.items()):
+            if n not in methods:
+                continue
+            ok = len(got) == 1 and got == ref
+            chk.decide(ok, rule, '%s <%s> %s' % (facts.site(fn), short_t(t), n),
+                       'Encoding<%s>::%s delegates to %s (Prefix: %s)' % (short_t(t), n, sorted(got), sorted(ref or [])), function=ir.fn_label(fn))
